@@ -129,13 +129,21 @@ func structuralAtom(a string) bool {
 // structuralConjunct: an atom that is a structural reason, or a disjunction of such atoms only.
 func structuralConjunct(c string) bool {
 	parts := splitOr(c)
+	nStruct := 0
 	for _, p := range parts {
-		if !structuralAtom(p) {
+		switch {
+		case structuralAtom(p):
+			nStruct++
+		case negArgRE.MatchString(p):
+			// `n < 0 || n > len(data)`: the sign test on an offset argument belongs to the length test beside it
+		default:
 			return false
 		}
 	}
-	return len(parts) > 0
+	return nStruct > 0
 }
+
+var negArgRE = regexp.MustCompile(`^val\(arg:[A-Za-z_][A-Za-z_0-9]*\)<0$`)
 
 func rejectRule(w *World, r *Report, rule string, pkgSel func(pkg string) bool) {
 	var table struct {
